@@ -172,10 +172,18 @@ func (c *chain) extension(t *rapid.T) []*hist.Op {
 }
 
 // anchorSeq anchors ops in sequence order starting at time t0 with non-monotone numbers.
+// numberHighs, when set, gives the high 32 bits of the transaction numbers used by anchorSeq (a ledger whose global
+// transaction counter is above 2^32); it is drawn per case by the generators.
+var numberHighs func(i int) uint64
+
 func anchorSeq(ops []*hist.Op, t0 uint64, tag string) []*hist.Anchored {
 	var out []*hist.Anchored
 	for i, op := range ops {
-		out = append(out, op.At(t0+uint64(i), uint64((i*5+2)%7), fmt.Sprintf("ref-%s%d", tag, i), 0))
+		num := uint64((i*5 + 2) % 7)
+		if numberHighs != nil {
+			num += numberHighs(i) << 32
+		}
+		out = append(out, op.At(t0+uint64(i), num, fmt.Sprintf("ref-%s%d", tag, i), 0))
 	}
 	return out
 }
@@ -232,6 +240,15 @@ func buildDeactivated(t *rapid.T, pool string) (*chain, []*hist.Anchored) {
 		ch.windowed()
 	}
 	ch.deactivate("D")
+	numberHighs = nil
+	if rapid.IntRange(0, 3).Draw(t, "hugePrefixNumbers") == 0 {
+		hs := make([]uint64, len(ch.ops))
+		for i := range hs {
+			hs[i] = uint64(rapid.IntRange(0, 3).Draw(t, "prefixNumberHigh"))
+		}
+		numberHighs = func(i int) uint64 { return hs[i] }
+	}
+	defer func() { numberHighs = nil }()
 	return ch, anchorSeq(ch.ops, 20, "h")
 }
 
@@ -245,6 +262,15 @@ func TestDeactivateTerminal(t *testing.T) {
 		base := uint64(20 + len(prefix))
 		// some operations of the extension are pending (unpublished) instead of anchored; their wall-clock stamp may
 		// lie after or before the ledger times of the prefix (requested before the deactivate was anchored)
+		// transaction numbers may be a global counter above 2^32
+		huge := rapid.IntRange(0, 3).Draw(t, "hugeNumbers") == 0
+		highs := make([]uint64, len(ext))
+		for i := range highs {
+			if huge {
+				highs[i] = uint64(rapid.IntRange(0, 3).Draw(t, "numberHigh")) << 32
+			}
+		}
+		hi := func(i int) uint64 { return highs[i] }
 		nUnpub := rapid.SampledFrom([]int{0, 0, 0, 1, 2}).Draw(t, "unpublishedExt")
 		for i, op := range ext {
 			if i >= len(ext)-nUnpub {
@@ -255,7 +281,7 @@ func TestDeactivateTerminal(t *testing.T) {
 				h = append(h, op.At(ut, 0, "", 0))
 				continue
 			}
-			h = append(h, op.At(base+uint64(perm[i]/2), uint64(perm[i]), fmt.Sprintf("ref-x%d", i), 0))
+			h = append(h, op.At(base+uint64(perm[i]/2), uint64(perm[i])+hi(i), fmt.Sprintf("ref-x%d", i), 0))
 		}
 		c := &Case{Case: *hist.NewCase(ch.suffix, ch.code, 0, h), PrefixLen: len(prefix), Mode: "deactivate"}
 		// the node's clock may long have left every signed window: what is anchored stays what it is
